@@ -11,6 +11,9 @@ use simmodel::oracle::{self, Phase, PropVal};
 use simmodel::*;
 use std::time::Duration;
 
+/// Zero-length frames delivered before an `Advance` marked `Fault::Idle`.
+const IDLE_FRAMES: usize = 70_000;
+
 fn viol(property: &str, clause: &str, step: usize, detail: String, signature: String) -> Violation {
     Violation {
         property: property.to_string(),
@@ -165,7 +168,17 @@ pub fn execute(scn: &Scn, property: &str) -> RunOutcome {
                 } else {
                     out.sim_seconds += *dt as f64;
                 }
-                let r = catch(|| anim.advance(*dt));
+                // an idling application: tens of thousands of zero-length frames in one state
+                // before this frame ("inserting zero-length advances anywhere in a history
+                // changes nothing") - more calls than any counter of 16 bits can hold
+                let r = catch(|| {
+                    if *fault == Fault::Idle {
+                        for _ in 0..IDLE_FRAMES {
+                            anim.advance(0.0);
+                        }
+                    }
+                    anim.advance(*dt)
+                });
                 r
             }
             Op::SetState(s) => {
@@ -861,6 +874,32 @@ pub fn execute(scn: &Scn, property: &str) -> RunOutcome {
                     scn.ops.len(),
                     format!("f64 probe panicked: {}", p.describe()),
                     "panic f64".into(),
+                ));
+            }
+        }
+    }
+    if (property == "C20" || property == "C07") && out.violation.is_none() && (scn.repartition_seed >> 5) % 8 == 0 {
+        out.count("probe.wide_integer_and_f64_properties_run");
+        let mut observe = |v: &crate::shapes::WideInts, ended: bool| {
+            h.u64(v.up);
+            h.u64(v.down);
+            h.u64(v.signed as u64);
+            h.u64(v.size as u64);
+            h.u64(v.fine.to_bits());
+            h.u32(ended as u32);
+        };
+        match catch(|| crate::shapes::wide_ints_probe(&scn.ops, scn.repartition_seed >> 9, &mut observe)) {
+            Ok(None) => {}
+            Ok(Some((clause, d))) => {
+                out.violation = Some(viol(property, clause, scn.ops.len(), d, "wide properties".into()));
+            }
+            Err(p) => {
+                out.violation = Some(viol(
+                    property,
+                    &format!("panic@{}:{}", p.file, p.line),
+                    scn.ops.len(),
+                    format!("wide-property probe panicked: {}", p.describe()),
+                    "panic wide properties".into(),
                 ));
             }
         }
